@@ -178,11 +178,16 @@ theorem ids_listItems (vs : List V) (i : Nat) : i ∈ (listItems vs).ids ↔ ∃
 installs. -/
 theorem ids_apply (op : FOp) (k : Kind) (fs r : Fields) (h : op.apply k fs = .ok r) (i : Nat)
     (hi : i ∈ r.ids) : i ∈ fs.ids ∨ i ∈ opIds op := by
+  unfold FOp.apply at h
+  split at h
+  · cases h
+  revert h
+  intro h
   cases op with
   | set key v =>
     have hv : opIds (.set key v) = v.ids := by simp [opIds, FOp.vals]
     rw [hv]
-    simp only [FOp.apply] at h
+    simp only [FOp.applyCore] at h
     split at h
     · split at h
       · cases h; exact ids_set _ _ _ _ hi
@@ -192,28 +197,28 @@ theorem ids_apply (op : FOp) (k : Kind) (fs r : Fields) (h : op.apply k fs = .ok
       · cases h
     · cases h; exact ids_set _ _ _ _ hi
   | del key =>
-    simp only [FOp.apply] at h
+    simp only [FOp.applyCore] at h
     split at h
     · cases h; exact Or.inl (ids_del _ _ _ hi)
     · cases h
   | setIdx n v =>
     have hv : opIds (.setIdx n v) = v.ids := by simp [opIds, FOp.vals]
     rw [hv]
-    simp only [FOp.apply] at h
+    simp only [FOp.applyCore] at h
     split at h
     · cases h; exact ids_setIdx _ _ _ _ hi
     · cases h
   | append v =>
     have hv : opIds (.append v) = v.ids := by simp [opIds, FOp.vals]
     rw [hv]
-    simp only [FOp.apply] at h
+    simp only [FOp.applyCore] at h
     cases h
     rw [ids_append] at hi
     rcases hi with hi | hi
     · exact Or.inl hi
     · simp only [Fields.ids, List.append_nil] at hi; exact Or.inr hi
   | extend vs =>
-    simp only [FOp.apply] at h
+    simp only [FOp.applyCore] at h
     cases h
     rw [ids_append] at hi
     rcases hi with hi | hi
@@ -225,7 +230,7 @@ theorem ids_apply (op : FOp) (k : Kind) (fs r : Fields) (h : op.apply k fs = .ok
   | insert n v =>
     have hv : opIds (.insert n v) = v.ids := by simp [opIds, FOp.vals]
     rw [hv]
-    simp only [FOp.apply] at h
+    simp only [FOp.applyCore] at h
     cases h
     rw [mem_ids_ofList] at hi
     obtain ⟨kv, hkv, hi⟩ := hi
@@ -235,7 +240,7 @@ theorem ids_apply (op : FOp) (k : Kind) (fs r : Fields) (h : op.apply k fs = .ok
     · subst hkv; exact Or.inr hi
     · exact Or.inl (mem_idsF.mpr ⟨kv, List.mem_of_mem_drop hkv, hi⟩)
   | pop n =>
-    simp only [FOp.apply] at h
+    simp only [FOp.applyCore] at h
     split at h
     · cases h
       rw [mem_ids_ofList] at hi
@@ -246,13 +251,13 @@ theorem ids_apply (op : FOp) (k : Kind) (fs r : Fields) (h : op.apply k fs = .ok
       · exact Or.inl (mem_idsF.mpr ⟨kv, List.mem_of_mem_drop hkv, hi⟩)
     · cases h
   | reverse =>
-    simp only [FOp.apply] at h
+    simp only [FOp.applyCore] at h
     cases h
     rw [mem_ids_ofList] at hi
     obtain ⟨kv, hkv, hi⟩ := hi
     exact Or.inl (mem_idsF.mpr ⟨kv, List.mem_reverse.mp hkv, hi⟩)
   | clear =>
-    simp only [FOp.apply] at h
+    simp only [FOp.applyCore] at h
     cases h
     simp [Fields.ids] at hi
 
